@@ -76,7 +76,11 @@ def gen_part(rng, tier, big=False):
         notes.append({"p": rng.choice(pitches), "on": on, "off": off, "v": rng.randint(0, 127),
                       "tr": rng.choice([0, 0, 1, 2]), "ch": rng.choice([0, 1, 1, 2, 9]),
                       "ot": rng.random() < 0.1})
-    nc = rng.choice([0, 1, 2, 3, 4, 6, 8, 12]) if not big else rng.randint(10, 60)
+    if rng.random() < 0.25:
+        for n in notes:
+            if rng.random() < 0.6:
+                n["so"] = rng.choice([0.0, 0.5, 2.0])  # stale sound_off = release + so
+    nc = rng.choice([0, 0, 1, 2, 3, 4, 6, 8, 12]) if not big else rng.randint(10, 60)
     vals = [0, 1, 63, 64, 65, 126, 127] + [rng.randint(0, 127) for _ in range(3)]
     controls = []
     for i in range(nc):
@@ -196,6 +200,10 @@ def _note_dicts(notes, mpq, ppq):
                  track=n["tr"], channel=n["ch"])
         if n.get("ot"):
             d["note_on_tick"] = ref_tick(n["on"], mpq, ppq) + 3  # a given tick is used as it is
+        if n.get("so") is not None:
+            # a note dict copied from an earlier (pedalled) part carries a stale sounding end: building a part
+            # recomputes every note, so the result must not depend on it
+            d["sound_off"] = n["off"] + n["so"]
         out.append(d)
     return out
 
